@@ -159,6 +159,18 @@ func (e *ev) notClosedSide(fn *ssa.Function) func(a, b *ssa.BasicBlock) bool {
 // on every path of its non-nil branch and never re-panics. Returns ok and a reason.
 func (e *ev) routingFrame(fr *recoverFrame, acceptClose bool) (bool, string) {
 	f := fr.Closure
+	// recover() must run on every path through the deferred closure: a return that is not dominated by the
+	// recover() call lets the panic continue unwinding (e.g. an early `if closed { return }` in front of it)
+	recIn, _ := fr.Rec.(ssa.Instruction)
+	skipped := false
+	core.AllInstrs(f, func(x ssa.Instruction) {
+		if core.IsNormalReturn(x) && recIn != nil && !core.Dominates(recIn, x) {
+			skipped = true
+		}
+	})
+	if skipped {
+		return false, "the deferred closure can return without calling recover() (early return in front of it): the panic keeps unwinding into the caller"
+	}
 	edges := nonNilEdges(f, fr.Rec)
 	pred := func(x ssa.Instruction) bool {
 		return e.routesException(x, fr.Rec) || (acceptClose && e.closesWith(x, fr.Rec))
